@@ -302,6 +302,10 @@ def _polyfile_case(args):
              points=[[1 / 3, 0.1], [2.2, 1 / 7], [2.9, 2.9], [1.5, 1.0],
                      [0.2, 2.5]],
              name="None", inverted=True, unique_id=8),
+        dict(axes=("pos_x", "pos_y"),
+             points=[[-3.5, -1e-3], [123456789.123456, -2.0],
+                     [5.0, 7.25e8], [-1e-12, 3.0]],
+             name="offsets; negative [x] #1", inverted=False, unique_id=40),
     ]
     rs = np.random.RandomState(5)
     for r in range(1, len(pool) + 1):
